@@ -59,6 +59,7 @@ type Exec struct {
 	inited  map[*ssa.Package]bool
 
 	spec       int // >0: speculative mode
+	specCalls  int
 	specObl    []obligation
 	specGuard  *Term
 	instrs     int
@@ -360,8 +361,12 @@ func (e *Exec) callFunc(fn *ssa.Function, args []Value, free []Value, pos token.
 	if fn.Blocks == nil {
 		e.unsupported("function without body: %s", name)
 	}
-	if e.spec > 0 && !e.eng.pureFn(fn) {
+	if e.spec > 0 && (!e.eng.pureFn(fn) || e.specCalls >= 3) {
 		panic(specAbort{"impure call"})
+	}
+	if e.spec > 0 {
+		e.specCalls++
+		defer func() { e.specCalls-- }()
 	}
 	e.funcs[name] = true
 	e.depth++
